@@ -11,6 +11,8 @@ from .values import *
 from .source import Repo, ClassInfo
 
 SOLVER_TIMEOUT_MS = 20000
+UNKNOWN_SPENT_S = 0.0       # wall time this process spent on solver calls that came back `unknown`
+UNKNOWN_BUDGET_S = 90.0
 SOLVER_RLIMIT = 40_000_000      # roughly what z3 spends in 20 s on this machine for the string-heavy queries (linear arithmetic queries use ~10^3..10^5)
 
 
@@ -166,13 +168,22 @@ class Run:
 
     def check(self, extra=None):
         import time
+        global UNKNOWN_SPENT_S
         t0 = time.time()
+        if UNKNOWN_SPENT_S > UNKNOWN_BUDGET_S and not getattr(self, "_short", False):
+            # this process has already burnt its budget on queries the solvers could not decide: the verdict is "undecided" whatever comes,
+            # later queries get a short leash instead of a minute each
+            self.solver.set("timeout", 5000)
+            self._short = True
         if extra is None:
             r = self.solver.check()
         else:
             r = self.solver.check(extra)
+        dt = time.time() - t0
+        if r == z3.unknown:
+            UNKNOWN_SPENT_S += dt
         self.n_solver += 1
-        self.t_solver += time.time() - t0
+        self.t_solver += dt
         return r
 
     def feasible(self, cond):
